@@ -57,7 +57,7 @@ def plan(tier, seed):
 
 def mandatory_bins(tier):
     b = ["offset_%d" % o for o in OFFSETS] + ["offset_random", "tag_order_not_sorted", "encrypted_component", "zero_components", "eight_tags",
-         "text_stream", "text_path", "bec2", "appnote_scripts", "block_cust_opened", "block_update_opened", "block_ecc_opened", "customer_key_in_slot", "histories_under_layout_hooks", "second_export_after_in_place_mutation", "more_than_255_components", "directory_larger_than_64k", "bec2_without_auth_blocks", "encrypted_payload_over_8k", "same_component_object_listed_twice", "exports_by_concurrent_threads", "one_object_exported_by_concurrent_threads"]
+         "text_stream", "text_path", "bec2", "appnote_scripts", "block_cust_opened", "block_update_opened", "block_ecc_opened", "customer_key_in_slot", "histories_under_layout_hooks", "second_export_after_in_place_mutation", "more_than_255_components", "directory_larger_than_64k", "bec2_without_auth_blocks", "encrypted_payload_over_8k", "same_component_object_listed_twice", "exports_by_concurrent_threads", "one_object_exported_by_concurrent_threads", "description_is_a_dict_subclass"]
     b += ["blocks_" + "+".join(l) for l in GB.all_block_lists()]
     return b
 
@@ -101,6 +101,18 @@ def run_bf3(ns, ctx, mon, case, key, offset, scratch, idx, dup=False):
     ctx.distinct("bf3", case.digest_parts(), key, offset)
     note_bins(ctx, case)
     obj = G.build_real(ns, case)
+    if obj.components and idx % 7 == 2:
+        # descriptions given as dict SUBCLASSES (OrderedDict, defaultdict, a user class): still dicts, so their insertion order is the
+        # tag order of the file
+        import collections
+
+        class TagDict(dict):
+            pass
+
+        for j, c in enumerate(obj.components):
+            items = list(c.description.items())
+            c.description = (collections.OrderedDict(items), collections.defaultdict(bytes, items), TagDict(items))[j % 3]
+        ctx.bin("description_is_a_dict_subclass")
     if dup and obj.components:
         # the SAME component object listed twice (e.g. one image stored under two slots): the hook derives the
         # model from obj.components at call time, so the expected file simply has the entry and payload twice
